@@ -9,6 +9,12 @@ TRUST = ("Trusted base: xDSL 0.70 with the irdl_options shim (vlib/compat.py), t
 
 # property id -> (technique, level text, level note, design section)
 CLAIMED = {
+ "C01": ("Hypothesis property-based testing of generated accfg programs; oracle = differential execution (original vs trace-states+dedup) on an abstract CSR machine with havoc on opaque calls",
+         "Thousands of generated programs (nested scf.for/scf.if, calls with/without the no-effects annotation, 1-2 accelerators, shared value pools) are run through the real passes and both versions are executed for 3 input vectors each (trip counts 0,1,2,3,5; both branch outcomes); launch/await/call traces and the registers every launch observes must agree. Exploration level: execution-based differential testing reaches what the text-only lit tests cannot, but the program space is unbounded.",
+         TRUST + " Interpreter vlib/interp.py and CSRMachine (un-annotated call = all registers unknown).", "4/C01"),
+ "C20": ("Hypothesis property-based testing over merge histories (stateful in effect: invariant after every step); oracle = PE interpreter vs kernel body on corner + drawn data vectors, count agreement across APIs; small alphabet enumerated exhaustively",
+         "Generated histories of 1..5 (thorough 1..8) kernels are merged with the real encode/combine API; after every merge every kernel merged so far is decoded and the merged PE, configured with the decoded switches, is evaluated against the kernel's own body. Exploration level with an exhaustive small sub-space.",
+         TRUST + " PE semantics (choose index, mux polarity) taken from the repository's own finalize-phs-to-hw lowering; decode's exponential search is cut at 11 muxes.", "4/C20"),
  "C03": ("Hypothesis property-based testing; oracle = iteration-multiset invariant (numpy enumeration); exhaustive enumeration of a small sub-space in thorough",
          "Random and (thorough) exhaustive-small search over schedules, templates and transformation chains; every yielded schedule of the backtracking scheduler is compared with the input as a multiset of operand-index tuples. Exploration is the right level: the functions are pure and cheap, so tens of thousands of cases per run are possible, but the input space is unbounded.",
          TRUST + " Iteration box semantics taken from the SchedulePattern docstrings.", "4/C03"),
